@@ -28,12 +28,24 @@ package floodsub
 //@ func (*FloodSub).handleValidMessage
 //@   noframe
 //@   nosweep nil-deref
-//@   requires authenticPub(pkt, pktInner)
+// (callers: handlePublish with a packet it has verified - its call-site clause above - and Publish with
+// the message it has just signed)
+//@   requires pkt != nil && pktInner != nil
 //@   assert at call go.handleValidMessage$1: channelID == old(pktInner.Channel) && atlock((channelID in m.channels) && (ss in m.channels[channelID])) && ss != nil && ss.channelID == channelID
 // C28 (de-duplication): a packet goes on to delivery and forwarding only in the one activation whose
 // cache operation inserted its message ID while it was absent (an atomic test-and-set).
 //@   assert at call pubmessage.NewMessage: cacheWon[msgId]
+// and whatever the outcome, the node remembers the ID of the packet it was given
+//@   assert at call! (*SignedMsg).ComputeMessageID: recv == pkt
+//@   assert at exit: cacheSeen[msgId]
 //@   assert at call go.handleValidMessage$1: msg != nil && msg.pktInner == pktInner && msg.peerID == b58dec(pkt.FromPeerId)
+
+// A message published at this node enters through the same de-duplicating step (so its ID is
+// remembered and the copy that comes back around a cycle is dropped).
+//@ func (*FloodSub).Publish
+//@   noframe
+//@   nosweep nil-deref
+//@   assert at call! (*FloodSub).handleValidMessage: arg2 == msg && arg3 == inner && arg2 != nil
 
 // The spawned goroutine hands exactly that message object to each handler.
 //@ func (*FloodSub).handleValidMessage$1
